@@ -675,6 +675,11 @@ class AttackGraph():
             child.parents.remove(node)
         for parent in node.parents:
             parent.children.remove(node)
+        for attacker in list(node.compromised_by):
+            attacker.undo_compromise(node)
+        for attacker in self.attackers:
+            attacker.entry_points = [entry_point for entry_point in \
+                attacker.entry_points if entry_point is not node]
         self.nodes.remove(node)
 
         if not isinstance(node.id, int):
